@@ -56,6 +56,12 @@ def safe_check(mod, pid, sc):
         for _ in range(int(sc.get("_repeat", 1)) - 1):
             # the same scenario executed again in the same process: a difference means state leaked inside the library
             out = mod.check(json.loads(json.dumps({k: v for k, v in sc.items() if k != "_repeat"})))
+        if getattr(out, "drop_verdict", None) and not getattr(mod, "JUDGED_WITHOUT_INTERVENTIONS", False):
+            # the world did not unfold as its own fault plan assumes (see worldprop.base_outcome): nothing that depends on the
+            # plan is judged in this run; it is counted as aborted (and more than 20 % aborted runs is exit 2, never 0)
+            out.viol = []
+            out.aborted = True
+            out.abort_reason = "intervention_late"
         return out
     except Exception as exc:
         from .driver import classify_exception
